@@ -1010,11 +1010,14 @@ impl<'a> Lexer<'a> {
                 }
                 Some('\\') if !raw => {
                     quote_count = 0;
+                    // Offset of the backslash: the error span must start on a character boundary
+                    // whatever the (possibly multi-byte) characters consumed by the failed escape.
+                    let escape_start = it.pos() - 1;
                     // Handle escape sequences
                     if Self::escape(&mut it, &mut text).is_err() {
                         return Some(self.err_span(
                             LexemeError::InvalidEscapeSequence("\\".to_owned()),
-                            start + it.pos() - 1,
+                            start + escape_start,
                             start + it.pos(),
                         ));
                     }
